@@ -353,7 +353,8 @@ def getItemOld [Zero K] [Add K] (b : Basis K) (ix : Index) : Except IdxErr (Item
 Gauss–Jordan elimination; `none` when `Aᴴ A` is singular (dependent modes).  `conj` is complex
 conjugation (`id` for a real scalar).  The driver certifies every result it prints by evaluating
 `certified conj b x y` (`normalResidual conj b x y = 0` and `x.length = nmodes`, exactly; defined
-below); `Properties/C14.lean` proves that `certified … = true` makes `x` a minimiser of the residual (`normal_eq_minimises`, `…_complex`), hence
+below); `Properties/C14.lean` proves that this evaluation never fails (`lstsq_sound`: the Gauss–Jordan model is
+sound), that `certified … = true` makes `x` a minimiser of the residual (`normal_eq_minimises`, `…_complex`), hence
 equal to `c` when `y = A·c` with independent modes (`lstsq_certified_recovers`), and that the
 result does not depend on the storage form (`coefficients_storage_independent`). -/
 
